@@ -138,6 +138,7 @@ type harness struct {
 	opts     []optDef
 	byName   map[string]int
 	pristine map[string]string // snapshot of a fresh registry's src repository
+	pristineEx map[string]map[string]string // ... without one tag (in-place pairing)
 	layoutOK map[string]string // snapshot of the pristine source layout
 	srcDir   string            // reusable source layout (re-copied whenever it was altered)
 	seq      int
@@ -300,6 +301,10 @@ func (h *harness) runCase(c caseID) outcome {
 	if pr.srcLayout {
 		pristine = h.layoutOK
 	}
+	if pr.tgt == "in-place" {
+		// the source tag is named as the target: everything reachable from the *other* tags must survive
+		pristine = h.pristineWithout(sh.name)
+	}
 	var diffs []string
 	for k, v := range pristine {
 		if k == "tag:"+sh.name && pr.tgt == "in-place" {
@@ -339,7 +344,6 @@ func (h *harness) runCase(c caseID) outcome {
 	// ---- audit of the target ----------------------------------------------------------------------
 	au := newAuditor(tgtStore)
 	au.foreign = h.fx.foreign
-	au.rehashed = h.fx.rehashed
 	var body []byte
 	var ok bool
 	if rOut.Tag != "" && rOut.Digest == "" {
@@ -381,6 +385,12 @@ func (h *harness) runCase(c caseID) outcome {
 			}
 		}
 	} else if ds, isDir := tgtStore.(*dirStore); isDir {
+		refLists := map[string]bool{} // referrer lists the layout keeps under fallback tags
+		for _, e := range ds.index() {
+			if _, isRef := isFallbackTag(e.Annotations[annoRefName]); isRef {
+				refLists[e.Digest] = true
+			}
+		}
 		for d := range ds.blobFiles() {
 			if before[d] {
 				continue
@@ -388,7 +398,11 @@ func (h *harness) runCase(c caseID) outcome {
 			b, _ := ds.blob(d)
 			var m aManifest
 			if json.Unmarshal(b, &m) == nil && m.SchemaVersion == 2 && (m.Config != nil || m.Manifests != nil) {
-				written = append(written, wr{d, d, b})
+				name := d
+				if refLists[d] {
+					name = "sha256-referrer-list"
+				}
+				written = append(written, wr{name, d, b})
 			}
 		}
 		sort.Slice(written, func(i, j int) bool { return written[i].dig < written[j].dig })
@@ -415,6 +429,17 @@ func (h *harness) runCase(c caseID) outcome {
 		out.counts[k] += v
 	}
 	return out
+}
+
+func (h *harness) pristineWithout(tag string) map[string]string {
+	if s, ok := h.pristineEx[tag]; ok {
+		return s
+	}
+	r := h.newRegistry()
+	defer r.Close()
+	s := (&regStore{r, srcRepo}).snapshotExcept(tag)
+	h.pristineEx[tag] = s
+	return s
 }
 
 func containsAll(after, before string) bool {
@@ -488,7 +513,7 @@ func TestVerifC13(t *testing.T) {
 	rec := ev.New()
 	defer rec.Flush(t)
 	rec.SampleCap = 3
-	h := &harness{t: t, rec: rec, opts: alphabet(), byName: map[string]int{}}
+	h := &harness{t: t, rec: rec, opts: alphabet(), byName: map[string]int{}, pristineEx: map[string]map[string]string{}}
 	for i, o := range h.opts {
 		h.byName[o.name] = i
 	}
